@@ -71,6 +71,7 @@ type Ctx struct {
 	trans      int64
 	skip       string
 	fail       *Failure
+	costly     bool // one execution costs seconds (a subprocess): replay twice instead of five times, do not shrink
 	Tier       string
 }
 
@@ -392,10 +393,17 @@ func sameFailure(a, b *Failure) bool {
 	return a.Class == b.Class && a.Key == b.Key
 }
 
+// Costly marks this execution as expensive (see the costly field).
+func (c *Ctx) Costly() { c.costly = true }
+
 func confirmAndShrink(body func(*Ctx), c *Ctx, shr *shrinker, doShrink bool, res *Result) *Violation {
-	// determinism: the same choice vector must fail identically 5 times
+	// determinism: the same choice vector must fail identically 5 times (twice for costly executions)
 	d0 := c.digest()
-	for i := 0; i < 5; i++ {
+	replays := 5
+	if c.costly {
+		replays, doShrink = 2, false
+	}
+	for i := 0; i < replays; i++ {
 		r := &Ctx{prefix: c.choices, lenient: true, Tier: c.Tier}
 		out := runOnce(body, r)
 		if out.aborted || !sameFailure(r.fail, c.fail) || r.digest() != d0 || !equalInts(r.choices, c.choices) {
